@@ -215,7 +215,8 @@ theorem shared_block_is_run_then_end (b : Mem) (timeout : Nat) (o : Nat) (m : Tx
 /-- **An exit with an exception of any kind is the identity on the store** (the rollback theorem, for all the
 kinds of `Leave`): whatever leaves the block — an `Exception`, a `BaseException` that is not an `Exception`
 (`KeyboardInterrupt`, a user subclass, …), or `asyncio.CancelledError` because the task was cancelled while it was
-suspended inside the body after some writes — afterwards every key of the store, user key or lock key, is exactly what
+suspended inside the body after some writes, or an exception object whose truth value is False (`Leave.falsy`: seeded
+change C05-9 decided with `if exc_value` and committed it) — afterwards every key of the store, user key or lock key, is exactly what
 it was before the block (aged by the time that passed), no transaction is current in the task's context, and (for a
 shared context object) the object is idle again.  No proviso.  In particular a cancelled, half-done transaction is
 never committed (seeded changes C03-5 / C05-4 decided with `isinstance(exc_value, Exception)` and did commit it). -/
@@ -307,11 +308,12 @@ example : ((Ctx.init (Mem.init 10) 80).run [.enterObj 0 .locked, .cmd (.set 0 (.
 
 example : (Ctx.init (Mem.init 10) 80).objsIdle := fun _ => rfl
 
-/-- all four kinds of exit on one body (a write in locked mode, so a lock key is in the store while the block runs):
-only `ok` commits; an `Exception`, a non-`Exception` `BaseException` and a cancellation leave nothing, not even the lock -/
-example : ([Leave.ok, .error, .base, .cancelled].map fun how =>
+/-- all kinds of exit on one body (a write in locked mode, so a lock key is in the store while the block runs):
+only `ok` commits; an `Exception`, a non-`Exception` `BaseException`, a cancellation and a falsy exception object leave
+nothing, not even the lock -/
+example : ([Leave.ok, .error, .base, .cancelled, .falsy].map fun how =>
       ((Ctx.init (Mem.init 10) 80).run [.enter .locked, .cmd (.set 0 (.tok 1) none .always), .exit how]).1.st.b.store) =
-    [[(0, ⟨.tok 1, none⟩)], [], [], []] := by decide
+    [[(0, ⟨.tok 1, none⟩)], [], [], [], []] := by decide
 
 /-- the lock key really is there before the exit (so "no lock key left" says something) -/
 example : ((Ctx.init (Mem.init 10) 80).run [.enter .locked, .cmd (.set 0 (.tok 1) none .always)]).1.st.b.store.length = 1 := by
